@@ -101,6 +101,13 @@ CHECKS["C18"] = dict(
     ref="5/C18 and 12",
 )
 
+CHECKS["C19"] = dict(
+    technique="TLA+ specifications of the UFO file-name algorithm as a machine over name histories (Filenames.tla), of design-source documents as value trees with writer/reader laws (DocSem.tla) and of piecewise-linear axis maps in exact rationals (AxisMap.tla), model-checked; TLC-generated name sequences, documents and maps replayed on the real writers/readers and judged by TLC; corpus designspaces, UFOs, GLIF and plist files through write-read-compare",
+    text="TLC checks Legal, Bounded and CaseUnique of the transcribed userNameToFileName / handleClash1 / handleClash2 over every name history of small alphabets (counterexamples are replayed on the real functions before they count), inverse laws of axis maps on all monotone knot lists of a lattice, and the optional-field lattice of every document kind; the generated name sequences run on the real functions (as shipped, with padded names reaching the 255 limit, and on real GlyphSet / UFOWriter file creation), generated designspace documents (formats 4 and 5), GLIF glyphs, fontinfo / kerning / groups / lib / layercontents (UFO 2 and 3, with up-conversion) and plist trees (XML and binary) are written by the real writers, read back and compared as value trees by TLC, and every corpus designspace, UFO, .glif and .plist goes through the same write-read-compare.",
+    note="Trusted: TLC, the projection of documents to DocSem trees (numbers by value), exact rationals for axis maps. The predicted-name clause (conformance to the UFO 3 reference algorithm) is skipped where the reference itself exceeds 255 characters and for histories containing sigma.",
+    ref="5/C19 and 12",
+)
+
 NOT_YET = "check not built yet in this round (see DESIGN.md section 10 for the build order)"
 
 
